@@ -16,8 +16,6 @@ import (
 	"github.com/plgd-dev/go-coap/v3/message"
 	"github.com/plgd-dev/go-coap/v3/message/pool"
 	"github.com/plgd-dev/go-coap/v3/options"
-	"github.com/plgd-dev/go-coap/v3/tcp"
-	"github.com/plgd-dev/go-coap/v3/udp"
 	"pgregory.net/rapid"
 
 	"verif/bubble"
@@ -27,6 +25,7 @@ import (
 	"verif/memnet"
 	"verif/peer"
 	"verif/refcodec"
+	"verif/roles"
 	"verif/wire"
 )
 
@@ -69,6 +68,9 @@ type Scenario struct {
 	// peer retransmits that earlier confirmable response (same message ID, as after a lost ACK)
 	// and only then answers the new request
 	Reuse int `json:"reuse,omitempty"`
+	// Role: "" a client connection; "server" the connection a tcp / dtls server creates for an accepted
+	// peer (server applications issue requests on those as well)
+	Role string `json:"role,omitempty"`
 }
 
 type result struct {
@@ -129,6 +131,7 @@ func Exec(t *testing.T, sc Scenario, r *evid.Run) *evid.Failure {
 		var tk endpoints.Ticker
 		var w wire.Wire
 		var cc doer
+		stopRole := func() {}
 		limit := int64(64)
 		nstart := uint32(64)
 		if sc.Serialised {
@@ -136,16 +139,20 @@ func Exec(t *testing.T, sc Scenario, r *evid.Run) *evid.Failure {
 		}
 		if sc.Transport == "udp" {
 			link := memnet.NewPacketLink(memnet.LinkCfg{LatencyMs: 1})
-			cc = endpoints.UDP(link.A, []udp.Option{
+			c, stop, errRole := roles.Packet(sc.Role, link, bubble.Wait, []any{
 				options.WithMessagePool(pool.New(8, 2048)), options.WithPeriodicRunner(tk.Runner()),
 				options.WithBlockwise(sc.Blockwise, 6, 3*time.Second),
 				options.WithLimitClientParallelRequest(limit), options.WithLimitClientEndpointParallelRequest(limit),
 				options.WithTransmission(nstart, 2*time.Second, 2),
 			}...)
+			if errRole != nil {
+				panic(errRole)
+			}
+			cc, stopRole = c, stop
 			w = wire.UDP(link)
 		} else {
 			link := memnet.NewStreamLink(memnet.StreamCfg{})
-			c, err := endpoints.TCP(link.A, []tcp.Option{
+			c, stop, err := roles.Stream(sc.Role, link, bubble.Wait, []any{
 				options.WithMessagePool(pool.New(8, 2048)), options.WithPeriodicRunner(tk.Runner()),
 				options.WithBlockwise(sc.Blockwise, 6, 3*time.Second), options.WithCloseSocket(),
 				options.WithLimitClientParallelRequest(limit), options.WithLimitClientEndpointParallelRequest(limit),
@@ -153,7 +160,7 @@ func Exec(t *testing.T, sc Scenario, r *evid.Run) *evid.Failure {
 			if err != nil {
 				panic(err)
 			}
-			cc = c
+			cc, stopRole = c, stop
 			w = wire.TCP(link)
 			if sc.Blockwise {
 				// the stream client uses block-wise transfer only with a peer whose CSM announces it
@@ -465,6 +472,7 @@ func Exec(t *testing.T, sc Scenario, r *evid.Run) *evid.Failure {
 		}
 		bad = w.Bad()
 		_ = cc.Close()
+		stopRole()
 		bubble.Wait()
 	})
 	if run.Panic != "" {
@@ -555,6 +563,11 @@ func b2i(b bool) int64 {
 
 func gen(t *rapid.T) Scenario {
 	sc := Scenario{Transport: rapid.SampledFrom([]string{"udp", "udp", "tcp"}).Draw(t, "transport"), Blockwise: rapid.Bool().Draw(t, "bw"), Serialised: rapid.IntRange(0, 4).Draw(t, "serial") == 0}
+	if rapid.IntRange(0, 2).Draw(t, "role") == 0 {
+		// (the servers do not carry the parallel-request limits to the connections they create: those
+		// always run with the defaults, i.e. serialised)
+		sc.Role, sc.Serialised = "server", true
+	}
 	n := rapid.IntRange(1, 8).Draw(t, "ncalls")
 	used := map[string]bool{}
 	for i := 0; i < n; i++ {
@@ -681,6 +694,9 @@ func TestCheck(t *testing.T) {
 				key = string(b)
 			}
 			cls := []string{"match/" + sc.Transport}
+			if sc.Role == "server" {
+				cls = append(cls, "match/connection-created-by-a-server")
+			}
 			big, bigDup := false, false
 			if sc.Reuse > 0 {
 				cls = append(cls, "match/token-taken-again-and-earlier-response-retransmitted")
